@@ -259,6 +259,11 @@ func (w *World) functionVCsT(fn *ssa.Function, prop string, prove map[string]boo
 			rets, returned := e.resultTerms()
 			env := e.envFor(rets)
 			env.goalSk = e.goalSk
+			for _, sm := range e.summaries {
+				if !sm.nested {
+					env.hypInst = append(env.hypInst, sm.K, "(+ "+sm.K+" 1)")
+				}
+			}
 			for _, cl := range postClauses {
 				env.skNext = 0
 				t := env.trGoal(cl.expr)
